@@ -115,6 +115,7 @@ type caseB struct {
 	Head    bool   `json:"head"`
 	Dir     bool   `json:"dir,omitempty"`             // the directory object dirobj/ (zero bytes) instead; size_idx only shaped the range
 	AccEnc  string `json:"accept_encoding,omitempty"` // Accept-Encoding sent with the request (objects with odd index are text/plain, index%4==2 application/json)
+	Proxy   bool   `json:"proxy,omitempty"`           // asked of a gateway with the s3 backend, which has the objects from a posix gateway behind it
 }
 
 var (
@@ -137,12 +138,19 @@ func setup() error {
 	}
 	eng = e
 	cl = s3c.NewClient(eng, gw.DefaultRoot)
+	return fill(cl, true)
+}
+
+// fill stores the objects every case reads.
+func fill(cl *s3c.Client, keep bool) error {
 	if r := cl.MustCall("PUT", "/rng", nil, nil, nil); !r.OK() {
 		return fmt.Errorf("create bucket: %v", r)
 	}
 	for i, n := range sizes {
 		b := s3c.GenBytes(uint64(i)+77, int(n))
-		bodies = append(bodies, b)
+		if keep {
+			bodies = append(bodies, b)
+		}
 		var ct []s3c.KV
 		switch {
 		case i%2 == 1:
@@ -160,9 +168,46 @@ func setup() error {
 	return nil
 }
 
+var pcl *s3c.Client // through the proxying gateway
+
+// setupProxy: a posix gateway (its own process) holding the same objects, and a gateway with the s3 backend in front of it
+func setupProxy() error {
+	if pcl != nil {
+		return nil
+	}
+	sbE, err := gw.NewSandbox("c13e")
+	if err != nil {
+		return err
+	}
+	endp, err := gw.StartProc(gw.Config{SB: sbE})
+	if err != nil {
+		return err
+	}
+	sbP, err := gw.NewSandbox("c13p")
+	if err != nil {
+		return err
+	}
+	px, err := gw.StartProc(gw.Config{SB: sbP, Backend: "s3", BackendArgs: []string{"--access", gw.DefaultRoot.Access, "--secret", gw.DefaultRoot.Secret, "--endpoint", "http://" + endp.Addr}})
+	if err != nil {
+		return fmt.Errorf("proxy: %v", err)
+	}
+	if err := fill(s3c.NewClient(endp, gw.DefaultRoot), false); err != nil {
+		return err
+	}
+	pcl = s3c.NewClient(px, gw.DefaultRoot)
+	return nil
+}
+
 func runB(c caseB) error {
 	if err := setup(); err != nil {
 		return fmt.Errorf("SETUP: %w", err)
+	}
+	cl := cl
+	if c.Proxy {
+		if err := setupProxy(); err != nil {
+			return fmt.Errorf("SETUP: %w", err)
+		}
+		cl = pcl
 	}
 	obj := bodies[c.SizeIdx]
 	path := fmt.Sprintf("/rng/obj%d", c.SizeIdx)
@@ -192,6 +237,9 @@ func runB(c caseB) error {
 	}
 	if c.Dir {
 		pfx = "directory object, " + pfx
+	}
+	if c.Proxy {
+		pfx = "through the s3 backend, " + pfx
 	}
 	if r.Malformed != "" {
 		return fmt.Errorf(pfx+"malformed response: %s", r.Malformed)
@@ -261,6 +309,7 @@ func TestC13B(t *testing.T) {
 		idx := rapid.IntRange(0, len(sizes)-1).Draw(t, "size_idx")
 		c := caseB{SizeIdx: idx, Range: rangeGen(sizes[idx]).Draw(t, "range"), Head: rapid.IntRange(0, 9).Draw(t, "head") == 0, Dir: rapid.IntRange(0, 11).Draw(t, "dir") == 0,
 			AccEnc: rapid.SampledFrom([]string{"", "", "", "gzip", "gzip, deflate, br", "identity", "deflate", "br", "*"}).Draw(t, "accept_encoding")}
+		c.Proxy = rapid.IntRange(0, 7).Draw(t, "proxy") == 0
 		if strings.ContainsAny(c.Range, "\r\n\x00") {
 			c.Range = "bytes=0-0"
 		}
@@ -273,7 +322,10 @@ func TestC13B(t *testing.T) {
 		if c.Dir {
 			m += ":dirobj"
 		}
-		ev.Case(fmt.Sprintf("B|%d|%s|%v|%v|%s", idx, c.Range, c.Head, c.Dir, c.AccEnc), c.Range != "" && sizes[idx] > 0, "B:"+m+":"+cls)
+		if c.Proxy {
+			m += ":proxy"
+		}
+		ev.Case(fmt.Sprintf("B|%d|%s|%v|%v|%s|%v", idx, c.Range, c.Head, c.Dir, c.AccEnc, c.Proxy), c.Range != "" && sizes[idx] > 0, "B:"+m+":"+cls)
 		ev.Sample("B:"+cls, 1, c)
 		if err := runB(c); err != nil {
 			if strings.HasPrefix(err.Error(), "SETUP") {
